@@ -161,6 +161,14 @@ pub fn make_info(s: &SvcSpec) -> Result<ServiceInfo, mdns_sd::Error> {
                 .collect();
             ServiceInfo::new(&s.ty, &s.instance, &s.host, ip_arg, s.port, m)?
         }
+        "optmap" => {
+            let m: HashMap<String, String> = s
+                .txt
+                .iter()
+                .map(|(k, v)| (k.clone(), String::from_utf8_lossy(v.as_deref().unwrap_or(b"")).to_string()))
+                .collect();
+            ServiceInfo::new(&s.ty, &s.instance, &s.host, ip_arg, s.port, Some(m))?
+        }
         "none" => {
             let m: Option<HashMap<String, String>> = None;
             ServiceInfo::new(&s.ty, &s.instance, &s.host, ip_arg, s.port, m)?
@@ -228,6 +236,20 @@ fn conv_service(e: ServiceEvent) -> EvKind {
             port: r.port,
             addrs: addr_views(r.addresses.iter()),
             txt: r.txt_properties.iter().map(|p| (p.key().to_string(), p.val().map(|v| v.to_vec()))).collect(),
+            lookup_mismatch: {
+                // case-insensitive look-up: every key, in upper and lower case, finds the first property with that key
+                let mut bad = vec![];
+                for p in r.txt_properties.iter() {
+                    let first = r.txt_properties.iter().find(|q| q.key().eq_ignore_ascii_case(p.key())).map(|q| q.val().map(|v| v.to_vec()));
+                    for variant in [p.key().to_uppercase(), p.key().to_lowercase(), p.key().to_string()] {
+                        let got = r.get_property_val(&variant).map(|v| v.map(|x| x.to_vec()));
+                        if got != first {
+                            bad.push(variant);
+                        }
+                    }
+                }
+                bad
+            },
         })),
         other => EvKind::Other(format!("{other:?}")),
     }
